@@ -644,6 +644,61 @@ def run_c04(ctx):
     ctx.cov["partial"] = "aborts inside aws-lc/libsodium, allocator failure and memory safety of the C libraries are outside what the Lean model can exhibit; thorough tier adds a valgrind run as supporting evidence when available"
 
 
+# ------------------------------------------------------------------ C16
+def c16_oracle(op, impl):
+    t = op.split(" ")
+    be = t[1]
+    if impl == "panic":
+        return ("panic in a randomised operation", "%s/rng/panic" % be)
+    if t[0] == "o.fresh":
+        if impl != "ok distinct=1 n=" + t[3]:
+            return ("two of %s consecutive %s operations share a nonce/salt/ephemeral key/generated key: %s" % (t[3], t[2], impl), "%s/%s/repeated-randomness" % (be, t[2]))
+    elif t[0].startswith("rng."):
+        src = t[2]
+        answers = [] if src == "." else src.split(",")
+        # a failing draw that the operation reaches must give an error and no artefact
+        if "!" in answers and impl.startswith("ok"):
+            # rejection sampling may legitimately stop before a later failing answer is drawn; in the generated
+            # scripts the failure always precedes the accepted candidate
+            return ("operation produced an artefact although the random source reported failure", "%s/%s/fail-open" % (be, t[0]))
+        if "!" in answers and impl != "err crypto":
+            return ("RNG failure not reported as CryptoError: " + impl, "%s/%s/fail-kind" % (be, t[0]))
+        if "!" not in answers and not impl.startswith("ok"):
+            return ("randomised operation failed with a working random source: " + impl, "%s/%s/failed" % (be, t[0]))
+    return None
+
+
+def run_c16(ctx):
+    import checklib
+    nt = lambda o, i: (o.split(" ")[0], o.split(" ")[1], o.split(" ")[2].count(","), "!" in o.split(" ")[2], i[:6])
+    ok = checklib.build_harness(ctx, cfg_rng=True)
+    if ok:
+        run_stream(ctx, "scripted-rng", ["c16rng"], policy="okerr", oracle=c16_oracle, nontrivial=nt, pm=checklib.PM_RNG)
+    run_stream(ctx, "freshness", ["c16"], policy="okerr", oracle=c16_oracle,
+               nontrivial=lambda o, i: (o.split(" ")[1], o.split(" ")[2]), heavy=True)
+    ctx.cov["rule"] = ("(a) harness rebuilt with the getrandom custom backend: encrypt, PIE, PBKW, key sealing, key generation of v1-v4 under a scripted random source - output compared bit-for-bit with the model for the same answers, "
+                       "and a failure injected at EVERY draw index of every operation (incl. after rejected P-384 scalar candidates) must give CryptoError and no artefact; (b) normal build, all six back ends: 10^4 (thorough 10^5) consecutive "
+                       "operations per kind, all nonces/salts/ephemeral keys/generated keys pairwise distinct (statistical support)")
+    ctx.cov["partial"] = "aws-lc's and libsodium's RNGs and rsa's OsRng (getrandom 0.2) cannot be failed from outside; for those only the success path and freshness are observed"
+
+
+# ------------------------------------------------------------------ C17
+def c17_oracle(op, impl):
+    t = op.split(" ")
+    be = t[1]
+    if not impl.startswith("ok mismatches=0 panicked=0 same_after=1 same_fresh=1"):
+        return ("concurrent use of a shared key gave a result sequential use could not, crashed, or the key changed: " + impl[:120], "%s/conc" % be)
+    return None
+
+
+def run_c17(ctx):
+    run_stream(ctx, "threads", ["c17"], policy="okerr", oracle=c17_oracle, nontrivial=lambda o, i: tuple(o.split(" ")[1:3]), heavy=True)
+    ctx.cov["rule"] = ("per back end: 2, 4, 8 and 16 threads share one local, one secret and one public key (Arc) and run mixed operations - encrypt/decrypt, sign/verify (also through clones), failing decrypt/verify, "
+                       "PIE wrap/unwrap, clone and drop, ids, wrong-password unwrap; every result checked against the sequential oracle (decrypts / verifies / equals), then deterministic fingerprints of the keys "
+                       "(injected-nonce token, raw bytes, ids) compared before / after the history and against a fresh re-parsed copy")
+    ctx.cov["partial"] = "data races inside aws-lc / libsodium and the validity of `unsafe impl Send/Sync` cannot be exhibited by the Lean model; thorough tier is the place for a ThreadSanitizer run (supporting)"
+
+
 PROPS = {
     "C15": {"run": run_c15},
     "C09": {"run": run_c09},
@@ -652,6 +707,8 @@ PROPS = {
     "C02": {"run": run_c02},
     "C03": {"run": run_c03},
     "C04": {"run": run_c04},
+    "C16": {"run": run_c16},
+    "C17": {"run": run_c17},
     "C05": {"run": run_c05},
     "C06": {"run": run_c06},
     "C07": {"run": run_c07},
